@@ -51,6 +51,8 @@ def replay(case):
         return replay_c18(case, doc, obs)
     if prop == "C15":
         return replay_c15(case, doc, obs)
+    if prop == "C11":
+        return replay_c11(case, doc, obs)
     raise ValueError(prop)
 
 
@@ -521,4 +523,68 @@ def replay_c15(case, doc, obs):
     other = B if ff != B else A
     v = scan_props.c15_fault(oo, [A, B], faulted, ff, cont, mode, originals, fixed_alone, other_alone if other == B else None, other)
     obs.update(code=o["code"], err=o["err"][:2], faulted=faulted, fault_file=ff, violations=v)
+    return {"violates": bool(v), "observed": obs}
+
+
+def replay_c11(case, doc, obs):
+    from checks.parse_real import tokenizer
+
+    p = case["params"]
+    if "p" in p:  # kernel case: replay through the whole application
+        l, other = case["vars"]["l"], case["vars"]["other"]
+        digits = "".join(chr(case["vars"][f"d{i}"]) for i in range(p.get("digits", 1))) if p["command"] == "disable-num-lines" else ""
+        pl = p["p"]
+        prefix = p.get("prefix", "<!--")
+        ident = p.get("ident", "md013")
+        # a document with pragma at line pl and a too-long line / missing final newline at line l
+        long = "x" * 100
+        lines = ["ok"] * 16
+        lines[pl - 1] = f"{prefix} pyml {p['command']} {digits}{' ' if digits else ''}{ident}-->"
+        if l - 1 == pl - 1:
+            return {"violates": False, "observed": {"note": "failure line coincides with the pragma line"}}
+        lines[l - 1] = long
+        text = "\n".join(lines) + "\n"
+        with Sandbox() as sb:
+            sb.write(F, text)
+            o = real_main(sb, rule_args("only:md013") + ["scan", F])
+        n = int(digits) if digits else 0
+        known = ident in ("md013", "line-length")
+        if p["command"] == "disable-next-line":
+            want_sup = known and l == pl + 1
+            want_err = 0 if known else 1
+        else:
+            want_sup = n >= 1 and known and pl + 1 <= l <= pl + n
+            want_err = 0 if (n >= 1 and known) else 1
+        sup = not any(f[1] == l for f in o["fails"])
+        v = []
+        if other:
+            return {"violates": False, "observed": {"note": "other-rule variant is kernel-only"}}
+        if sup != want_sup:
+            v.append({"kind": "suppression", "detail": {"suppressed": sup, "expected": want_sup, "pragma_line": pl, "failure_line": l, "count": n}})
+        if len(o["pragma"]) != want_err:
+            v.append({"kind": "pragma-error-count", "detail": {"errors": len(o["pragma"]), "expected": want_err}})
+        return {"violates": bool(v), "observed": {"doc": text[:200], "fails": o["fails"], "pragma": o["pragma"], "violations": v}}
+    dp = scan_props.insert_line(doc, p["at"], p["pragma"])
+    argv = rule_args(p.get("selection", "all")) + ["scan", F]
+    with Sandbox() as sb:
+        sb.write(F, doc)
+        o_d = real_main(sb, argv)
+    with Sandbox() as sb:
+        sb.write(F, dp)
+        o_p = real_main(sb, argv)
+    if any("Error" in e for e in o_d["err"] + o_p["err"]):
+        return {"violates": False, "observed": dict(obs, err=(o_d["err"] + o_p["err"])[:2])}
+
+    def masked(d):
+        try:
+            toks = tokenizer().transform(d, show_debug=False, do_add_end_of_stream_token=True)
+        except Exception:  # noqa
+            return None
+        if toks and toks[-1].is_pragma:
+            toks = toks[:-1]
+        return [(t.token_name, t.line_number, t.column_number, str(t).replace(f"({t.line_number},{t.column_number})", "(L,C)", 1)) for t in toks]
+
+    v = scan_props.c11_pipeline(_t5(o_d["fails"]), _t5(o_p["fails"]), [tuple(x[1:]) for x in o_p["pragma"]], p["at"], p.get("command", "disable-next-line"), p.get("n", 1),
+                                set(p.get("named", [])), p.get("wellformed", True), masked(doc), masked(dp))
+    obs.update(with_pragma=dp, violations=v)
     return {"violates": bool(v), "observed": obs}
